@@ -25,3 +25,24 @@ package backend
 //@   contains TextureCubeArray true typedef triangle triangleadj TriangleStream uint uniform unorm unsigned vector vertexfragment
 //@   contains VertexShader void volatile while
 //@   none-suffix _
+//
+// ---- stage-interface ordering (C17, C12) ----------------------------------------------
+//
+// Inputs/outputs are emitted in the order locations (ascending), then builtins
+// (by enum), then the rest. The comparator must be a strict order that ties
+// only keys that are equal, so the emitted order is a function of the bindings.
+//
+//@ func SortedArgIndices
+//@   mode bv
+//@   tags C17 C12
+//@   order sort.SliceStable#1 [args]
+//
+//@ func SortedMemberIndices
+//@   mode bv
+//@   tags C17 C12
+//@   order sort.SliceStable#1 [members]
+//
+//@ func SortFlatBindings
+//@   mode bv
+//@   tags C17 C12
+//@   order sort.SliceStable#1 [bindings]
